@@ -39,6 +39,12 @@ type SessionSpec struct {
 	// PausesFirst: at a quiescent point a goroutine parked at a yield point is released before a
 	// gated (slow) step is let go; otherwise slow steps are released first.
 	PausesFirst bool
+	// CloseAfterItems: with CloseOverlap, Close is additionally held back until the client has written that many
+	// messages in all (so that it lands in the middle of the signal traffic).
+	CloseAfterItems int
+	// SlowClientReads: the client's reads of the plugin's output each yield the processor that many times first,
+	// which makes the client's read loop the slowest stage.
+	SlowClientReads int
 }
 
 type ExecOutcome struct {
@@ -97,6 +103,7 @@ func RunSession(spec SessionSpec) *SessionResult {
 	res := &SessionResult{Fixture: NewFixture()}
 	res.C2S = NewPipe("c2s", spec.C2S, chunker(spec.ChunkSeed))
 	res.S2C = NewPipe("s2c", spec.S2C, chunker(spec.ChunkSeed*31+7))
+	res.S2C.SlowRead = spec.SlowClientReads
 	var doneCount atomic.Int32
 	var panicMu sync.Mutex
 	guard := func(name string, f func()) {
@@ -189,7 +196,7 @@ func RunSession(spec SessionSpec) *SessionResult {
 							n++
 						}
 					}
-					return n >= len(want)
+					return n >= len(want) && len(items) >= spec.CloseAfterItems
 				})
 				res.CloseErr = cli.Close()
 				res.CloseReturned = true
